@@ -145,6 +145,13 @@ func (w *World) drain() (string, []block.NewHeaderEvent, []block.NewDataEvent) {
 // carried key and is reported only when that key is NOT an Ed25519 key (the model computes the address of Ed25519
 // keys itself from the bytes, so the comparison checks that computation too).
 func Oracles(b []byte) (keyok, hsig, dsig bool, kaddr []byte) {
+	// the oracles are computed with the repository's decoders: if one of them panics on these bytes, the generator
+	// must survive - the runner then gives the same bytes to the real handlers and reports the panic as a finding
+	defer func() {
+		if r := recover(); r != nil {
+			keyok, hsig, dsig, kaddr = false, false, false, nil
+		}
+	}()
 	var sh types.SignedHeader
 	if err := sh.UnmarshalBinary(b); err == nil && sh.Signer.PubKey != nil {
 		keyok = true
